@@ -222,7 +222,7 @@ PROPS["C12"] = dict(
         dict(name="pipelines", run="^TestPropPipelines$", kind="rapid", shards=16, checks={"quick": 3200, "thorough": 60000},
              guard={"quick": 900, "thorough": 7200}),
         dict(name="known_F12", run="^TestKnownF12$", kind="plain", shards=1, guard={"quick": 300, "thorough": 300}),
-        dict(name="error_path", run="^TestErrorPathStopsBackgroundWork$", kind="plain", shards=1, guard={"quick": 300, "thorough": 300}),
+        dict(name="error_path", run="^TestErrorPathStopsBackgroundWork$", kind="plain", shards=1, guard={"quick": 900, "thorough": 900}),
     ],
     min_class_fraction={"parse_some_input_rejected": 0.3, "pipeline_goroutine_backed_stage": 0.005},
 )
@@ -582,7 +582,7 @@ _amend("C12", "error path part: five fixed shapes in which a merge operand or re
        "and has 4 000 000 items behind it, three evaluations each: 150 ms after the failed evaluation returned the counting closure of that operand "
        "must have stopped (no background CPU work).",
        "error path part: seven fixed shapes, three evaluations each - a merge operand or receiver (iterated by a goroutine of its own) fails at its "
-       "3rd/4th item and has 4 000 000 items behind it; a multiUse consumer uses its list twice while the other consumer still has 1 500 000 "
+       "3rd/4th item and has 4 000 000 items behind it; a multiUse consumer uses its list twice while the other consumer still has 200 000 "
        "counted calls to make behind the end of the list: once the failed evaluation has returned, the counting closure must stand still "
        "(sampled 150 ms and 250 ms later: no background CPU work).")
 _amend("C13", "NewFuncMapFactory map,",
@@ -608,3 +608,5 @@ _amend("C02", "closures that capture nothing, applied to argument-independent va
 _amend("C04", "An input that is slow only because the optimizer",
        "A slow input counts as scaling worse than quadratically only if the factor exceeds 5 at both halvings in the minimum of three "
        "measurements per size. An input that is slow only because the optimizer")
+# verdicts of C04 that rest on wall-clock measurements are confirmed by an isolated replay
+PROPS["C04"]["confirm_timing"] = ["scales worse than quadratically", "does not return within"]
